@@ -280,7 +280,13 @@ func diffEntry(a, b *auditlog.Entry, ignoreSource bool) string {
 			x.Resource.SourceBucket, x.Resource.SourceKey, y.Resource.SourceBucket, y.Resource.SourceKey = "", "", "", ""
 		}
 		if x != y {
-			return fmt.Sprintf("LogDetails %+v != %+v", x, y)
+			for _, f := range strFields {
+				if f.get(&x) != f.get(&y) {
+					return fmt.Sprintf("LogDetails %s %.200q != %.200q", f.name, f.get(&x), f.get(&y))
+				}
+			}
+			return fmt.Sprintf("LogDetails part/status/duration (%d,%d,%d) != (%d,%d,%d)", x.Resource.PartNumber, x.Outcome.StatusCode, x.Outcome.DurationMs,
+				y.Resource.PartNumber, y.Outcome.StatusCode, y.Outcome.DurationMs)
 		}
 	case *auditlog.GroundingDetails:
 		db, ok := b.Details.(*auditlog.GroundingDetails)
@@ -482,10 +488,11 @@ type logCtx struct {
 
 // snapshot returns a validator positioned before entry i of the original log.
 func (lc *logCtx) snapshot(i int) *auditlog.Validator {
-	v := auditlog.NewValidator(edVerifier, mlVerifier)
 	if i == 0 {
-		return v
+		return auditlog.NewValidator(edVerifier, mlVerifier)
 	}
+	// (not NewValidator: it preallocates a 1000-slot buffer, too costly per tampering)
+	v := &auditlog.Validator{Ed25519Verifier: edVerifier, MlDsa87Verifier: mlVerifier}
 	v.Index = i
 	v.PrevHash = lc.entries[i-1].Hash
 	for k := lc.blockLo[i]; k < i; k++ {
@@ -690,15 +697,50 @@ func mutationsFor(lc *logCtx, i int, alts []string) []mutation {
 		e.Timestamp = t
 		return true
 	}})
+	// type: the details are replaced by what a decoder produces for the new type
+	// (so the tampered entry stays well-formed); for the JSON serializers the
+	// type is additionally changed with the details left as they are. (Not for
+	// the binary serializer: there a type/details mismatch desynchronises the
+	// stream and the decoder then allocates whatever a garbage 32-bit length
+	// prefix says, up to 4 GiB per read - rejected, but at seconds per case.)
+	var otherGrounding *auditlog.GroundingDetails
+	for k, o := range lc.entries {
+		if od, ok := o.Details.(*auditlog.GroundingDetails); ok && k != i {
+			otherGrounding = od
+			break
+		}
+	}
 	for _, ty := range []string{"GENESIS", "LOG", "GROUNDING", "", "log", "LOG "} {
 		ty := ty
-		ms = append(ms, mutation{"type", "=" + ty, func(e *auditlog.Entry) bool {
+		ms = append(ms, mutation{"type", "=" + ty + "+details", func(e *auditlog.Entry) bool {
 			if string(e.Type) == ty {
 				return false
+			}
+			switch auditlog.EntryType(ty) {
+			case auditlog.EntryTypeGenesis:
+				e.Details = &auditlog.GenesisDetails{}
+			case auditlog.EntryTypeLog:
+				e.Details = &auditlog.LogDetails{Operation: "PutObject", Phase: auditlog.PhaseComplete, Outcome: auditlog.OutcomeDetails{Outcome: auditlog.OutcomeSuccess, StatusCode: 200}}
+			case auditlog.EntryTypeGrounding:
+				if otherGrounding == nil {
+					return false
+				}
+				e.Details = cloneEntry(&auditlog.Entry{Details: otherGrounding}).Details
+			default:
+				e.Details = nil
 			}
 			e.Type = auditlog.EntryType(ty)
 			return true
 		}})
+		if _, isBin := lc.ser.(*serialization.BinarySerializer); !isBin {
+			ms = append(ms, mutation{"type", "=" + ty, func(e *auditlog.Entry) bool {
+				if string(e.Type) == ty {
+					return false
+				}
+				e.Type = auditlog.EntryType(ty)
+				return true
+			}})
+		}
 	}
 	// chain fields
 	for _, pos := range []int{0, 31, 63} {
@@ -1049,15 +1091,46 @@ const (
 )
 
 // trimmed is the known lossy behaviour of the text serializer (KF-C27-2): its
-// decoder applies strings.TrimSpace to every value.
+// decoder applies strings.TrimSpace to every (still escaped) value. The text
+// escaping turns \n, \r, | and \ into two-character sequences, so leading or
+// trailing newlines survive while every other Unicode white space is lost.
 func trimmed(e *auditlog.Entry) *auditlog.Entry {
 	c := cloneEntry(e)
 	if d, ok := c.Details.(*auditlog.LogDetails); ok {
 		for _, f := range strFields {
-			f.set(d, strings.TrimSpace(f.get(d)))
+			f.set(d, textUnescape(strings.TrimSpace(textEscape(f.get(d)))))
 		}
 	}
 	return c
+}
+
+func textEscape(s string) string {
+	return strings.NewReplacer("\\", "\\\\", "\n", "\\n", "\r", "\\r", "|", "\\|").Replace(s)
+}
+
+func textUnescape(s string) string {
+	var b strings.Builder
+	for i := 0; i < len(s); i++ {
+		if s[i] == '\\' && i+1 < len(s) {
+			switch s[i+1] {
+			case 'n':
+				b.WriteByte('\n')
+			case 'r':
+				b.WriteByte('\r')
+			case '|':
+				b.WriteByte('|')
+			case '\\':
+				b.WriteByte('\\')
+			default:
+				b.WriteByte('\\')
+				b.WriteByte(s[i+1])
+			}
+			i++
+			continue
+		}
+		b.WriteByte(s[i])
+	}
+	return b.String()
 }
 
 func roundTrip(serName string, entries []*auditlog.Entry, norm func(*auditlog.Entry) *auditlog.Entry) string {
@@ -1139,11 +1212,15 @@ func run(env *ev.Env, c Case) (o ev.Outcome) {
 			o.Count("roundtrip_ok:"+sn, 1)
 			continue
 		}
-		if sn == "text" && env.Known(matcherText) && roundTrip(sn, entries, trimmed) == "" {
-			// exactly the known mechanism: what comes back is the entry with every value TrimSpace'd
-			o.KnownHits = append(o.KnownHits, "KF-C27-2")
-			o.Class("text-roundtrip:known-lossy")
-			continue
+		if sn == "text" && env.Known(matcherText) {
+			msg2 := roundTrip(sn, entries, trimmed)
+			if msg2 == "" {
+				// exactly the known mechanism: what comes back is the entry with every value TrimSpace'd
+				o.KnownHits = append(o.KnownHits, "KF-C27-2")
+				o.Class("text-roundtrip:known-lossy")
+				continue
+			}
+			msg = msg2 + " (expected side already has KF-C27-2's TrimSpace applied)"
 		}
 		o.Failf("round trip failed: %s", msg)
 		return
@@ -1162,7 +1239,7 @@ func run(env *ev.Env, c Case) (o ev.Outcome) {
 	if !lc.snapOK {
 		o.Class("snapshots:disabled")
 	}
-	lc.fullEach = 23
+	lc.fullEach = 211
 	if long {
 		lc.fullEach = 997
 	}
@@ -1198,7 +1275,7 @@ func run(env *ev.Env, c Case) (o ev.Outcome) {
 
 	decodable := 0
 	knownSrc := 0
-	// onlySource: the tampered entry is a version-3 LOG entry that differs from the
+	// onlySource: the tampered entry is a LOG entry that differs from the
 	// signed one in nothing but Resource.SourceBucket / Resource.SourceKey (KF-C27-1).
 	check := func(t tamper, what string, field string, onlySource bool) bool {
 		lc.counter++
@@ -1241,34 +1318,57 @@ func run(env *ev.Env, c Case) (o ev.Outcome) {
 		}
 	}
 
-	srcBudget := 12 // tamperings of the unhashed source fields that are followed to the end of the log per case while KF-C27-1 is open
+	// Tamperings of the unhashed source fields that are followed to the end of the
+	// log per case while KF-C27-1 is open (each costs a full signature pass).
+	srcBudget := 12
+	if long {
+		srcBudget = 4
+	}
+	vs3 := variants
+	if !long {
+		vs3 = variants[:2] // without a grounding "relink+roots" is the same tampering as "relink"
+	}
 	for i := 0; i < n; i++ {
 		if !sel[i] {
 			continue
 		}
+		// raw: every value mutation of every field (is the field covered by the hash?).
+		// relinked: the first applicable mutation of each field plus every mutation of
+		// the chain fields (is the recomputed hash rejected by the signature?) - the
+		// outcome of a relinked tampering does not depend on the new value, and each
+		// one costs an Ed25519 verification.
+		relinked := map[string]bool{}
 		for _, m := range mutationsFor(lc, i, c.Alt) {
 			isSrc := m.field == "source_bucket" || m.field == "source_key"
-			for _, variant := range variants {
-				if isSrc && env.Known(matcherSource) && entries[i].Version == 3 && knownSrc >= srcBudget {
+			chainField := m.field == "previous_hash" || m.field == "signature" || m.field == "type" || m.field == "version"
+			for _, variant := range vs3 {
+				if isSrc && env.Known(matcherSource) && knownSrc >= srcBudget {
 					o.Count("skipped_behind_KF-C27-1", 1)
+					continue
+				}
+				if variant != "raw" && !chainField && relinked[variant+m.field] {
 					continue
 				}
 				t, tampered, ok := lc.fieldTamper(i, m, variant)
 				if !ok {
 					continue
 				}
+				if variant != "raw" {
+					relinked[variant+m.field] = true
+				}
 				what := fmt.Sprintf("entry %d (%s v%d) field %s %s, variant %s", i, entries[i].Type, entries[i].Version, m.field, m.kind, variant)
-				onlySource := entries[i].Version == 3 && entries[i].Type == auditlog.EntryTypeLog &&
+				onlySource := entries[i].Type == auditlog.EntryTypeLog &&
 					diffEntry(entries[i], tampered, true) == "" && diffEntry(entries[i], tampered, false) != ""
 				if !check(t, what, m.field, onlySource) {
 					return
 				}
 				o.Count("field_tamperings", 1)
+				o.Count("field_tamperings:"+variant, 1)
 			}
 		}
 	}
 	for _, sm := range c.Struct {
-		for _, variant := range variants {
+		for _, variant := range vs3 {
 			t, kind, ok := lc.structTamper(sm, variant, c.Forged)
 			if !ok {
 				continue
@@ -1387,7 +1487,7 @@ func genStruct(t *rapid.T, n int) []SM {
 func genCase(t *rapid.T, env *ev.Env) Case {
 	var c Case
 	c.Ser = rapid.SampledFrom([]string{"bin", "bin", "json", "json", "jsonindent"}).Draw(t, "ser")
-	n := rapid.IntRange(10, 60).Draw(t, "n")
+	n := rapid.IntRange(2, 60).Draw(t, "n")
 	ts := genTs(t)
 	for i := 0; i < n; i++ {
 		switch rapid.IntRange(0, 5).Draw(t, "dtK") {
@@ -1401,11 +1501,13 @@ func genCase(t *rapid.T, env *ev.Env) Case {
 	}
 	c.Alt = []string{genStr(t, "alt0"), genStr(t, "alt1")}
 	c.Forged = genEntry(t, ts+5)
-	longP := 150
+	// about 2% (quick) / 4% (thorough) long logs; the residue test keeps rapid's
+	// bias towards small and boundary values out of the rate
+	longMod := 50
 	if env.Thorough() {
-		longP = 60
+		longMod = 25
 	}
-	if rapid.IntRange(0, longP).Draw(t, "long") == 0 {
+	if rapid.IntRange(0, 9999).Draw(t, "long")%longMod == 7 {
 		c.Pad = rapid.SampledFrom([]int{1000, 1001, 1003, 1999, 2000, 2001, 2100}).Draw(t, "pad")
 		c.Sel = rapid.SliceOfN(rapid.IntRange(0, c.Pad+2), 5, 40).Draw(t, "sel")
 	}
